@@ -370,67 +370,67 @@ Proof.
 Qed.
 
 (* ---------- one step ---------- *)
-Theorem step_refines : forall st ss o st' r fl ss' e,
+Theorem step_refines : forall st ss o st' r ss' e,
   R st ss -> op_in_domain o = true ->
-  step c st o = (st', r, fl) -> sstep ss o = (ss', e) -> fl = [] ->
+  step c st o = (st', r, []) -> sstep ss o = (ss', e) ->
   meets e r = true /\ R st' ss'.
 Proof.
-  intros st ss o st' r fl ss' e HR Hdom Est Ess Hfl.
+  intros st ss o st' r ss' e HR Hdom Est Ess.
   pose proof HR as [R1 [R2 R3]].
   destruct o as [k b|k b t|src dst|k rg|k|ks|k|u n b|u n b t|u n src rg|u|u|u];
     cbn [op_in_domain] in Hdom.
   - (* Put *)
-    cbn [step sstep] in Est, Ess. inversion Ess; subst. split; [reflexivity|].
+    cbn [step sstep] in Est, Ess. injection Ess as <- <-. split; [reflexivity|].
     eapply put_obj_refines; eauto. apply nonempty_true; auto.
   - (* PutS *)
     cbn [step sstep] in Est, Ess. destruct t.
-    + inversion Est; inversion Ess; subst. split; [reflexivity|exact HR].
-    + inversion Ess; subst. split; [reflexivity|].
+    + injection Est as <- <-. injection Ess as <- <-. split; [reflexivity|exact HR].
+    + injection Ess as <- <-. split; [reflexivity|].
       eapply put_obj_refines; eauto. apply nonempty_true; auto.
   - (* Copy *)
     apply andb_prop in Hdom. destruct Hdom as [Hs Hd]. apply nonempty_true in Hs. apply nonempty_true in Hd.
     cbn [step sstep] in Est, Ess. destruct (path_eqb src dst).
-    + inversion Est; inversion Ess; subst. split; [reflexivity|exact HR].
+    + injection Est as <- <-. injection Ess as <- <-. split; [reflexivity|exact HR].
     + destruct (http_put (st_store st) dst (store_body c (fetch_any (st_store st) src))) as [s' ok] eqn:Ep.
-      inversion Est; subst; clear Est.
+      injection Est as Hst Hr Hfl.
       apply app_eq_nil in Hfl. destruct Hfl as [F4 F6]. apply flag_nil in F4. apply flag_nil in F6.
       apply negb_false_iff in F6. unfold is_file_at in F6.
       assert (Hfn : find_node (st_store st) src = find (st_store st) src) by (destruct src; [congruence|reflexivity]).
       rewrite Hfn in F6. destruct (find (st_store st) src) as [[|fs]|] eqn:Efs; try discriminate.
       assert (Hb : fetch_any (st_store st) src = file_bytes fs).
-      { unfold fetch_any. rewrite Hfn, Efs. reflexivity. }
+      { unfold fetch_any. rewrite ?Hfn, ?Efs. reflexivity. }
       assert (Hsp : sfind (ss_objs ss) src = Some (file_bytes fs)).
       { rewrite <- R1. unfold obj_at. rewrite Efs. reflexivity. }
-      rewrite Hsp in Ess. inversion Ess; subst; clear Ess. split; [reflexivity|].
+      rewrite Hsp in Ess. injection Ess as <- <-. split; [reflexivity|].
       rewrite Hb in Ep. rewrite (http_put_is_create _ _ _ F4) in Ep.
       destruct (write_rel (st_store st) (ss_objs ss) dst (store_body c (file_bytes fs)) R1 R2 Hd F4
                   (store_body_ok c _ Hchunk)) as [s1 [E1 [E2 E3]]].
-      rewrite E1 in Ep. inversion Ep; subst. rewrite (store_body_bytes c _ Hchunk) in E2.
-      split; [exact E2|]. split; [exact E3|exact R3].
+      rewrite E1 in Ep. injection Ep as <- <-. rewrite (store_body_bytes c _ Hchunk) in E2.
+      rewrite <- Hst. split; [exact E2|]. split; [exact E3|exact R3].
   - (* Get *)
-    apply nonempty_true in Hdom. cbn [step sstep] in Est, Ess. inversion Est; subst; clear Est.
+    apply nonempty_true in Hdom. cbn [step sstep] in Est, Ess. injection Est as <- <-.
     assert (Hfn : find_node (st_store st) k = find (st_store st) k) by (destruct k; [congruence|reflexivity]).
     pose proof (R1 k) as Hk. unfold obj_at in Hk.
     destruct (find (st_store st) k) as [[|f]|] eqn:Ef.
-    + rewrite <- Hk in Ess. inversion Ess; subst. split; [|exact HR].
-      unfold get_obj. rewrite Hfn, Ef. reflexivity.
+    + rewrite <- Hk in Ess. injection Ess as <- <-. split; [|exact HR].
+      unfold get_obj. rewrite ?Hfn, ?Ef. reflexivity.
     + rewrite <- Hk in Ess. destruct rg as [sp|].
       * destruct (ref_spec sp (Z.of_N (blen (file_bytes f)))) as [[o l]|] eqn:Er.
-        -- inversion Ess; subst. split; [|exact HR].
-           rewrite (get_range (st_store st) k f sp o l Hdom Ef (R2 k f Ef) Er). simpl. apply bytes_eqb_refl.
-        -- inversion Ess; subst. split; [reflexivity|exact HR].
-      * inversion Ess; subst. split; [|exact HR].
-        rewrite (get_whole (st_store st) k f Hdom Ef). simpl. apply bytes_eqb_refl.
-    + rewrite <- Hk in Ess. inversion Ess; subst. split; [|exact HR].
-      unfold get_obj. rewrite Hfn, Ef. reflexivity.
+        -- injection Ess as <- <-. split; [|exact HR].
+           rewrite (get_range (st_store st) k f sp o l Hdom Ef (R2 k f Ef) Er). cbn [meets]. apply bytes_eqb_refl.
+        -- injection Ess as <- <-. split; [reflexivity|exact HR].
+      * injection Ess as <- <-. split; [|exact HR].
+        rewrite (get_whole (st_store st) k f Hdom Ef). cbn [meets]. apply bytes_eqb_refl.
+    + rewrite <- Hk in Ess. injection Ess as <- <-. split; [|exact HR].
+      unfold get_obj. rewrite ?Hfn, ?Ef. reflexivity.
   - (* Del *)
-    cbn [step sstep] in Est, Ess. inversion Est; inversion Ess; subst; clear Est Ess.
+    cbn [step sstep] in Est, Ess. injection Est as <- <- Hfl. injection Ess as <- <-.
     apply flag_nil in Hfl. split; [reflexivity|]. split; [|split]; cbn [st_store st_ups ss_objs ss_ups].
     + intros q. rewrite (delete_exact _ _ Hfl). rewrite sfind_sremove. rewrite R1. reflexivity.
     + eapply files_ok_sub; [apply delete_recursive_sub|exact R2].
     + exact R3.
   - (* BatchDel *)
-    cbn [step sstep] in Est, Ess. inversion Est; inversion Ess; subst; clear Est Ess.
+    cbn [step sstep] in Est, Ess. injection Est as <- <- Hfl. injection Ess as <- <-.
     apply flag_nil in Hfl. split; [reflexivity|]. split; [|split]; cbn [st_store st_ups ss_objs ss_ups].
     + intros q. rewrite batch_delete_exact; auto.
       * rewrite sfind_fold_sremove. rewrite R1. reflexivity.
@@ -438,131 +438,131 @@ Proof.
     + eapply files_ok_sub; [apply batch_delete_sub|exact R2].
     + exact R3.
   - (* MpCreate *)
-    cbn [step sstep] in Est, Ess. inversion Est; inversion Ess; subst; clear Est Ess.
+    cbn [step sstep] in Est, Ess. injection Est as <- <-. injection Ess as <- <-.
     split; [reflexivity|]. split; [exact R1|]. split; [exact R2|]. cbn [st_ups ss_ups].
     apply Forall2_app; auto. constructor; [|constructor].
     split; [reflexivity|]. split; [apply nonempty_true; exact Hdom|]. right. exists []. split; [|split]; try reflexivity.
     intros m [].
   - (* MpPut *)
-    cbn [step sstep] in Est, Ess. inversion Ess; subst. split; [reflexivity|].
+    cbn [step sstep] in Est, Ess. injection Ess as <- <-. split; [reflexivity|].
     eapply put_part_refines; eauto.
   - (* MpPutS *)
     cbn [step sstep] in Est, Ess. unfold get_upload in Est.
     pose proof (Forall2_nth_error up_rel _ _ (N.to_nat u) R3) as Hu.
     destruct (nth_error (st_ups st) (N.to_nat u)) as [up|] eqn:Eu;
       destruct (nth_error (ss_ups ss) (N.to_nat u)) as [sp|] eqn:Es; try contradiction.
-    2: { inversion Est; subst. destruct t; inversion Ess; subst; (split; [reflexivity|]); auto.
+    2: { injection Est as <- <-. destruct t; injection Ess as <- <-; (split; [reflexivity|]); auto.
          rewrite s_put_part_dead; auto. rewrite Es. exact I. }
     destruct Hu as [K1 [K2 [[D1 D2]|[h [H1 [H2 H3]]]]]].
-    + rewrite D1 in Est. inversion Est; subst.
-      destruct t; inversion Ess; subst; (split; [reflexivity|]); auto.
+    + rewrite D1 in Est. injection Est as <- <-.
+      destruct t; injection Ess as <- <-; (split; [reflexivity|]); auto.
       rewrite s_put_part_dead; auto. rewrite Es. left. exact D2.
     + rewrite H2 in Est. destruct (max_part_id <? n) eqn:Emax.
-      * inversion Est; subst. destruct t; inversion Ess; subst; (split; [reflexivity|]); auto.
+      * injection Est as <- <-. destruct t; injection Ess as <- <-; (split; [reflexivity|]); auto.
         rewrite s_put_part_dead; auto. rewrite Es. right. apply domain_big_invalid. exact Emax.
       * destruct t.
-        -- inversion Est; inversion Ess; subst. split; [reflexivity|exact HR].
-        -- inversion Ess; subst. split; [reflexivity|]. eapply put_part_refines; eauto.
+        -- injection Est as <- <-. injection Ess as <- <-. split; [reflexivity|exact HR].
+        -- injection Ess as <- <-. split; [reflexivity|]. eapply put_part_refines; eauto.
   - (* MpCopy *)
     apply andb_prop in Hdom. destruct Hdom as [Hn Hs]. apply nonempty_true in Hs.
     cbn [step sstep] in Est, Ess. unfold get_upload in Est.
     assert (Hfn : find_node (st_store st) src = find (st_store st) src) by (destruct src; [congruence|reflexivity]).
     pose proof (R1 src) as Hsrc. unfold obj_at in Hsrc.
-    (* whatever the specification does here is a s_put_part or nothing *)
     pose proof (Forall2_nth_error up_rel _ _ (N.to_nat u) R3) as Hu.
+    (* when the specification's upload is missing or the number is refused, the specification does nothing *)
+    assert (Hnothing : (forall d, s_put_part ss u n d = ss) -> meets e ROk = true /\ meets e RErr = true /\ ss' = ss).
+    { intros Hdead. destruct (sfind (ss_objs ss) src) as [d|].
+      - destruct rg as [[a b]|].
+        + destruct (ref_spec (RClosed a b) (Z.of_N (blen d))) as [[o l]|]; injection Ess as <- <-;
+            rewrite ?Hdead; auto.
+        + injection Ess as <- <-. rewrite Hdead. auto.
+      - injection Ess as <- <-. auto. }
     destruct (nth_error (st_ups st) (N.to_nat u)) as [up|] eqn:Eu;
       destruct (nth_error (ss_ups ss) (N.to_nat u)) as [sp|] eqn:Es; try contradiction.
-    2: { inversion Est; subst.
-         assert (Hdead : forall d, s_put_part ss u n d = ss).
-         { intros d. apply s_put_part_dead. rewrite Es. exact I. }
-         destruct (sfind (ss_objs ss) src) as [d|].
-         - destruct rg as [[a b]|].
-           + destruct (ref_spec (RClosed a b) (Z.of_N (blen d))) as [[o l]|]; inversion Ess; subst;
-               (split; [reflexivity|]); rewrite ?Hdead; exact HR.
-           + inversion Ess; subst. split; [reflexivity|]. rewrite Hdead. exact HR.
-         - inversion Ess; subst. split; [reflexivity|exact HR]. }
+    2: { injection Est as <- <-.
+         destruct Hnothing as [_ [M ->]]; [|split; [exact M|exact HR]].
+         intros d. apply s_put_part_dead. rewrite Es. exact I. }
     destruct (max_part_id <? n) eqn:Emax.
-    { inversion Est; subst.
-      assert (Hdead : forall d, s_put_part ss u n d = ss).
-      { intros d. apply s_put_part_dead. rewrite Es. right. apply domain_big_invalid. exact Emax. }
-      destruct (sfind (ss_objs ss) src) as [d|].
-      - destruct rg as [[a b]|].
-        + destruct (ref_spec (RClosed a b) (Z.of_N (blen d))) as [[o l]|]; inversion Ess; subst;
-            (split; [reflexivity|]); rewrite ?Hdead; exact HR.
-        + inversion Ess; subst. split; [reflexivity|]. rewrite Hdead. exact HR.
-      - inversion Ess; subst. split; [reflexivity|exact HR]. }
+    { injection Est as <- <-.
+      destruct Hnothing as [_ [M ->]]; [|split; [exact M|exact HR]].
+      intros d. apply s_put_part_dead. rewrite Es. right. apply domain_big_invalid. exact Emax. }
+    clear Hnothing.
     unfold fetch_range in Est. rewrite Hfn in Est.
     destruct (find (st_store st) src) as [[|f]|] eqn:Ef.
     + (* the source is a directory: trigger 6 *)
-      inversion Est; subst. exfalso.
+      injection Est as _ _ Hfl. exfalso.
       apply app_eq_nil in Hfl. destruct Hfl as [F6 _]. apply flag_nil in F6.
-      unfold is_dir_at in F6. rewrite Hfn, Ef in F6. discriminate.
+      unfold is_dir_at in F6. rewrite ?Hfn, ?Ef in F6. discriminate.
     + rewrite <- Hsrc in Ess.
       pose proof (R2 src f Ef) as Hok. pose proof (file_ok_size f Hok) as Hsz.
       (* the data the model copies, given that it succeeds, is the data of the specification *)
-      assert (Hgo : forall data, R st ss ->
-                (st', r, fl) = (set_updir st u up (Some (dir_put (part_name n) (store_body c data)
+      assert (Hgo : forall data,
+                (set_updir st u up (Some (dir_put (part_name n) (store_body c data)
                                   match u_dir up with Some d => d | None => [] end)), ROk,
-                                flag 6 (is_dir_at (st_store st) src) ++
-                                flag 7 (match u_dir up with None => true | Some _ => false end) ++
-                                flag 8 (range_at_end (st_store st) src rg)) ->
+                 flag 6 (is_dir_at (st_store st) src) ++
+                 flag 7 (match u_dir up with None => true | Some _ => false end) ++
+                 flag 8 (range_at_end (st_store st) src rg)) = (st', r, []) ->
                 R st' (s_put_part ss u n data)).
-      { intros data _ E. inversion E; subst. clear E.
+      { intros data E. injection E as Hst Hr Hfl.
         apply app_eq_nil in Hfl. destruct Hfl as [_ Hfl]. apply app_eq_nil in Hfl. destruct Hfl as [F7 _].
         apply flag_nil in F7. destruct (u_dir up) as [d|] eqn:Ed; [|discriminate].
-        apply (put_part_refines st ss u n data _ ROk []); auto.
-        unfold put_part, get_upload. rewrite Eu, Ed, Emax. reflexivity. }
+        apply (put_part_refines st ss u n data st' ROk []); auto.
+        unfold put_part, get_upload. rewrite Eu, Ed, Emax. rewrite <- Hst. reflexivity. }
       destruct rg as [[a b]|].
       * rewrite Hsz in Est.
         destruct (parse_spec (RClosed a b) (Z.of_N (blen (file_bytes f)))) as [[o l]|] eqn:Ep.
         -- destruct (ref_spec (RClosed a b) (Z.of_N (blen (file_bytes f)))) as [[o' l']|] eqn:Er.
-           ++ rewrite (parse_spec_ref _ _ _ Er) in Ep. inversion Ep; subst.
-              inversion Ess; subst. split; [reflexivity|].
-              destruct (ref_spec_bounds _ _ o l (N2Z.is_nonneg _) Er) as [B1 [B2 B3]].
-              rewrite read_file_slice in Est; auto; [|rewrite Hsz; lia].
-              apply Hgo; auto.
+           ++ rewrite (parse_spec_ref _ _ _ Er) in Ep. injection Ep as <- <-.
+              injection Ess as <- <-. split; [reflexivity|].
+              destruct (ref_spec_bounds _ _ o' l' (N2Z.is_nonneg _) Er) as [B1 [B2 B3]].
+              assert (Hrd : read_file f (Z.to_N o') (Z.to_N l') = slice (file_bytes f) (Z.to_N o') (Z.to_N l')).
+              { apply read_file_slice; auto. rewrite Hsz. lia. }
+              rewrite Hrd in Est. apply Hgo; auto.
            ++ (* parse accepts, the reference does not: the range starts at the end (trigger 8) *)
-              exfalso. inversion Est; subst.
+              exfalso. injection Est as _ _ Hfl.
               apply app_eq_nil in Hfl. destruct Hfl as [_ Hfl]. apply app_eq_nil in Hfl. destruct Hfl as [_ F8].
-              apply flag_nil in F8. unfold range_at_end in F8. rewrite Hfn, Ef, Hsz in F8.
+              apply flag_nil in F8. unfold range_at_end in F8. rewrite ?Hfn, ?Ef, ?Hsz in F8.
               apply N.eqb_neq in F8.
-              simpl in Ep, Er.
+              cbn [parse_spec ref_spec] in Ep, Er.
               destruct (Z.of_N a >? Z.of_N (blen (file_bytes f)))%Z eqn:G1; [discriminate|].
               destruct (Z.of_N a >? Z.of_N b)%Z eqn:G2; [discriminate|].
               destruct ((Z.of_N a <=? Z.of_N b) && (Z.of_N a <? Z.of_N (blen (file_bytes f))))%Z eqn:G3; [discriminate|].
               apply andb_false_iff in G3. rewrite Z.gtb_ltb in G1, G2.
               apply Z.ltb_ge in G1. apply Z.ltb_ge in G2.
               destruct G3 as [G3|G3]; [apply Z.leb_gt in G3; lia|apply Z.ltb_ge in G3; lia].
-        -- inversion Est; subst.
+        -- injection Est as <- <-.
            destruct (ref_spec (RClosed a b) (Z.of_N (blen (file_bytes f)))) as [[o' l']|] eqn:Er.
            ++ rewrite (parse_spec_ref _ _ _ Er) in Ep. discriminate.
-           ++ inversion Ess; subst. split; [reflexivity|exact HR].
-      * inversion Ess; subst. split; [reflexivity|]. apply Hgo; auto.
-    + rewrite <- Hsrc in Ess. inversion Est; inversion Ess; subst. split; [reflexivity|exact HR].
+           ++ injection Ess as <- <-. split; [reflexivity|exact HR].
+      * injection Ess as <- <-. split; [reflexivity|]. apply Hgo; auto.
+    + rewrite <- Hsrc in Ess. injection Est as <- <-. injection Ess as <- <-. split; [reflexivity|exact HR].
   - (* MpComplete *)
     cbn [step sstep] in Est, Ess. unfold get_upload in Est.
     pose proof (Forall2_nth_error up_rel _ _ (N.to_nat u) R3) as Hu.
     destruct (nth_error (st_ups st) (N.to_nat u)) as [up|] eqn:Eu;
       destruct (nth_error (ss_ups ss) (N.to_nat u)) as [sp|] eqn:Es; try contradiction.
-    2: { inversion Est; inversion Ess; subst. split; [reflexivity|exact HR]. }
+    2: { injection Est as <- <-. injection Ess as <- <-. split; [reflexivity|exact HR]. }
     destruct Hu as [K1 [K2 [[D1 D2]|[h [H1 [H2 H3]]]]]].
-    { rewrite D1 in Est. rewrite D2 in Ess. inversion Est; inversion Ess; subst. split; [reflexivity|exact HR]. }
+    { rewrite D1 in Est. rewrite D2 in Ess. injection Est as <- <-. injection Ess as <- <-.
+      split; [reflexivity|exact HR]. }
     rewrite H2 in Est. rewrite H3 in Ess.
     destruct (listed c (dir_of c h)) as [|e0 es0] eqn:El.
     + assert (Hh : h = []).
       { apply (dir_of_nil_inv c). unfold listed in El. destruct (dir_of c h) as [|x d]; auto.
         simpl in El. destruct (c_limit c =? 0) eqn:E0; [apply N.eqb_eq in E0; lia|discriminate]. }
-      subst h. cbn [parts_of fold_left] in Ess. inversion Est; inversion Ess; subst. split; [reflexivity|exact HR].
+      subst h. cbn [parts_of fold_left] in Ess. injection Est as <- <-. injection Ess as <- <-.
+      split; [reflexivity|exact HR].
     + assert (Hne : h <> []). { intros ->. cbn in El. discriminate. }
       pose proof (parts_of_nonnil h Hne) as Hpn.
-      destruct (parts_of h) as [|p0 ps0] eqn:Eparts; [congruence|]. rewrite <- Eparts in *.
-      (* the triggers *)
+      assert (Ess' : (s_set_parts {| ss_objs := sput (ss_objs ss) (su_key sp) (List.concat (map snd (parts_of h)));
+                                     ss_ups := ss_ups ss |} u sp None, ENone) = (ss', e)).
+      { destruct (parts_of h) as [|p0 ps0]; [congruence|exact Ess]. }
+      clear Ess. injection Ess' as <- <-.
       destruct (create_entry (st_store st) (u_key up) (File (completed_file c (dir_of c h)))) as [s' ok] eqn:Ec.
-      assert (Hflags : fl = flag 0 (trig_order (map (fun e => part_number_of (fst e)) (dir_of c h))) ++
-                            flag 1 (trig_limit c (dir_of c h)) ++ flag 2 (trig_inline (dir_of c h)) ++
-                            flag 4 (trig_write (st_store st) (u_key up))).
-      { destruct ok; inversion Est; reflexivity. }
-      rewrite Hfl in Hflags. symmetry in Hflags.
+      assert (Hflags : flag 0 (trig_order (map (fun e => part_number_of (fst e)) (dir_of c h))) ++
+                       flag 1 (trig_limit c (dir_of c h)) ++ flag 2 (trig_inline (dir_of c h)) ++
+                       flag 4 (trig_write (st_store st) (u_key up)) = []).
+      { destruct ok; injection Est as _ _ Hf; exact Hf. }
       apply app_eq_nil in Hflags. destruct Hflags as [F0 Hflags].
       apply app_eq_nil in Hflags. destruct Hflags as [F1 Hflags].
       apply app_eq_nil in Hflags. destruct Hflags as [F2 F4].
@@ -572,10 +572,9 @@ Proof.
       { intros e0' He. apply (dir_suffix h H1). unfold listed in He. eapply takeN_in; eauto. }
       destruct (write_rel (st_store st) (ss_objs ss) (u_key up) (completed_file c (dir_of c h)) R1 R2 K2 F4
                   (completed_file_ok c _ Hsuf)) as [s1 [E1 [E2 E3]]].
-      rewrite E1 in Ec. inversion Ec; subst s' ok. clear Ec.
+      rewrite E1 in Ec. injection Ec as <- <-.
       rewrite (complete_concat c h Hchunk (hist_le h H1) F0 F1 F2) in E2.
-      inversion Est; subst; clear Est. rewrite Eparts in Ess. rewrite <- Eparts in Ess.
-      inversion Ess; subst; clear Ess. split; [reflexivity|].
+      injection Est as <- <-. split; [reflexivity|].
       split; [|split]; cbn [set_updir s_set_parts st_store st_ups ss_objs ss_ups].
       * rewrite <- K1. exact E2.
       * exact E3.
@@ -585,8 +584,8 @@ Proof.
     pose proof (Forall2_nth_error up_rel _ _ (N.to_nat u) R3) as Hu.
     destruct (nth_error (st_ups st) (N.to_nat u)) as [up|] eqn:Eu;
       destruct (nth_error (ss_ups ss) (N.to_nat u)) as [sp|] eqn:Es; try contradiction.
-    2: { inversion Est; inversion Ess; subst. split; [reflexivity|exact HR]. }
-    inversion Est; inversion Ess; subst. split; [reflexivity|].
+    2: { injection Est as <- <-. injection Ess as <- <-. split; [reflexivity|exact HR]. }
+    injection Est as <- <-. injection Ess as <- <-. split; [reflexivity|].
     split; [exact R1|]. split; [exact R2|]. unfold set_updir, s_set_parts. cbn [st_ups ss_ups].
     destruct Hu as [K1 [K2 _]]. apply Forall2_set_nth; auto. split; [exact K1|]. split; [exact K2|]. left. auto.
   - (* MpList *)
@@ -594,16 +593,16 @@ Proof.
     pose proof (Forall2_nth_error up_rel _ _ (N.to_nat u) R3) as Hu.
     destruct (nth_error (st_ups st) (N.to_nat u)) as [up|] eqn:Eu;
       destruct (nth_error (ss_ups ss) (N.to_nat u)) as [sp|] eqn:Es; try contradiction.
-    2: { inversion Est; inversion Ess; subst. split; [reflexivity|exact HR]. }
+    2: { injection Est as <- <-. injection Ess as <- <-. split; [reflexivity|exact HR]. }
     destruct Hu as [K1 [K2 [[D1 D2]|[h [H1 [H2 H3]]]]]].
-    { rewrite D2 in Ess. inversion Est; inversion Ess; subst. split; [reflexivity|exact HR]. }
-    rewrite H2 in Est. rewrite H3 in Ess. inversion Est; inversion Ess; subst; clear Est Ess.
+    { rewrite D2 in Ess. injection Est as <- <- _. injection Ess as <- <-. split; [reflexivity|exact HR]. }
+    rewrite H2 in Est. rewrite H3 in Ess. injection Est as <- <- Hfl. injection Ess as <- <-.
     split; [|exact HR].
     apply flag_nil in Hfl. rewrite (trig_order_dir c h (hist_le h H1)) in Hfl.
     rewrite (dir_of_parts c h (hist_agree h H1 Hfl)).
     assert (Hin : forall p, In p (parts_of h) -> 1 <= fst p /\ fst p <= 10000).
     { intros p Hp. apply H1. apply parts_of_numbers. apply in_map. exact Hp. }
-    rewrite filter_all.
+    rewrite (filter_all (fun e => lex_ltb (part_name 0) (fst e)) (map (enc c) (parts_of h))).
     2: { intros e He. apply in_map_iff in He. destruct He as [p [<- Hp]]. destruct (Hin p Hp) as [A B].
          unfold enc. cbn [fst]. unfold lex_ltb. rewrite name_order; try lia.
          - destruct (N.compare_spec 0 (fst p)); auto; lia.
@@ -629,17 +628,17 @@ Theorem run_refines : forall ops st ss rs fl fin es sfin,
   all2 meets es rs = true /\ R fin sfin.
 Proof.
   induction ops as [|o ops IH]; intros st ss rs fl fin es sfin HR Hdom Er Es Hfl.
-  - simpl in Er, Es. inversion Er; inversion Es; subst. split; [reflexivity|exact HR].
+  - simpl in Er, Es. injection Er as <- _ <-. injection Es as <- <-. split; [reflexivity|exact HR].
   - simpl in Hdom. apply andb_prop in Hdom. destruct Hdom as [Hd1 Hd2].
     cbn [run srun] in Er, Es.
     destruct (step c st o) as [[st1 r1] fl1] eqn:E1.
     destruct (run c st1 ops) as [[rs1 fls1] fin1] eqn:E2.
     destruct (sstep ss o) as [ss1 e1] eqn:E3.
     destruct (srun ss1 ops) as [es1 sfin1] eqn:E4.
-    inversion Er; inversion Es; subst; clear Er Es.
-    apply app_eq_nil in Hfl. destruct Hfl as [F1 F2].
-    destruct (step_refines st ss o st1 r1 fl1 ss1 e1 HR Hd1 E1 E3 F1) as [M1 HR1].
-    destruct (IH st1 ss1 rs1 fls1 fin es1 sfin HR1 Hd2 E2 E4 F2) as [M2 HR2].
+    injection Er as <- Hf <-. injection Es as <- <-.
+    rewrite Hfl in Hf. apply app_eq_nil in Hf. destruct Hf as [F1 F2]. subst fl1.
+    destruct (step_refines st ss o st1 r1 ss1 e1 HR Hd1 E1 E3) as [M1 HR1].
+    destruct (IH st1 ss1 rs1 fls1 fin1 es1 sfin1 HR1 Hd2 E2 E4 F2) as [M2 HR2].
     split; [|exact HR2]. simpl. rewrite M1, M2. reflexivity.
 Qed.
 
